@@ -15,6 +15,14 @@ The cache is `(surface, cached)` where `cached` is a **private copy** of the act
 for which `surface` was computed (`self._actuators_for_cached_surface = self.actuators.copy()`)
 and is compared **by value** (`np.all(self.actuators == cached)`).
 
+The `surface` property hands out an array as well.  The cached surface (`self._surface`) is an
+array object like any other, so there is a second heap, `sheap`, of surface arrays; the mirror
+holds the handle `surf` of its cached one, and the caller keeps every array a read returned
+(`outs`: the `k`-th read returned the array with handle `outs[k]`) and may edit it in place at
+any later time (`Op.editSurface`).  `read` is the **repaired** property (pending_fixes/D22f): the
+caller receives a fresh copy.  `Old.readAlias` is the code as pinned: the caller receives the
+cached array object itself, so an edit of a returned surface silently corrupts the cache.
+
 `readByRef` / `readByIdentity` are the two classic broken caches (copy dropped; compared by
 object identity) kept for their counterexamples.
 -/
@@ -34,7 +42,12 @@ structure Mirror (K : Type) where
   cur : Nat
   /-- private copy of the actuator values the cached surface belongs to -/
   cached : Option (List K)
-  surface : List K
+  /-- every surface array ever created (`grid.zeros()`, `linear_combination`, `.copy()`) -/
+  sheap : List (List K)
+  /-- handle of the cached surface array (`self._surface`) -/
+  surf : Nat
+  /-- the arrays the caller received from its reads of `dm.surface`, in order -/
+  outs : List Nat := []
   /-- (broken variants only) handle of the array the surface was computed from -/
   cachedRef : Option Nat := none
 deriving Repr
@@ -51,27 +64,44 @@ inductive Op (K : Type) where
   | random (v : List K)
   /-- `dm.influence_functions = …` -/
   | setInfl (m : List (List K)) (nmodes : Nat)
-  /-- read `dm.surface` -/
+  /-- read `dm.surface` (the caller keeps the returned array) -/
   | read
+  /-- `s[i] = v` on the array that the `k`-th read of `dm.surface` returned -/
+  | editSurface (k i : Nat) (v : K)
 deriving Repr
 
 /-- `DeformableMirror(influence_functions)`: actuators `zeros(nmodes)` (handle 0), empty cache -/
 def init [Zero K] (infl : List (List K)) (nmodes : Nat) : Mirror K :=
   { infl := infl, nmodes := nmodes, heap := [List.replicate nmodes 0], cur := 0,
-    cached := none, surface := List.replicate infl.length 0 }
+    cached := none, sheap := [List.replicate infl.length 0], surf := 0 }
 
 /-- the current actuator values -/
 def acts (m : Mirror K) : List K := m.heap.getD m.cur []
 
+/-- the contents of the cached surface array -/
+def surface (m : Mirror K) : List K := m.sheap.getD m.surf []
+
+/-- `self._surface = linear_combination(...)`, `self._actuators_for_cached_surface = copy` -/
+def recompute [Zero K] [Add K] [Mul K] (m : Mirror K) : Mirror K :=
+  { m with sheap := m.sheap ++ [matvec m.infl (acts m)], surf := m.sheap.length,
+           cached := some (acts m), cachedRef := some m.cur }
+
+/-- hand the caller a fresh copy of the cached surface array -/
+def handCopy (m : Mirror K) : Mirror K × List K :=
+  ({ m with sheap := m.sheap ++ [surface m], outs := m.outs ++ [m.sheap.length] }, surface m)
+
+/-- the caller edits, in place, the array its `k`-th read returned -/
+def editOut (m : Mirror K) (k i : Nat) (v : K) : Mirror K :=
+  match m.outs[k]? with
+  | some h => { m with sheap := m.sheap.modify h (fun a => a.set i v) }
+  | none => m
+
 /-- what the surface has to be -/
 def ideal [Zero K] [Add K] [Mul K] (m : Mirror K) : List K := matvec m.infl (acts m)
 
-/-- the `surface` property -/
+/-- the `surface` property (repaired, D22f): validate or recompute the cache, return a copy -/
 def read [Zero K] [Add K] [Mul K] [DecidableEq K] (m : Mirror K) : Mirror K × List K :=
-  if m.cached = some (acts m) then (m, m.surface)
-  else
-    let s := matvec m.infl (acts m)
-    ({ m with surface := s, cached := some (acts m), cachedRef := some m.cur }, s)
+  if m.cached = some (acts m) then handCopy m else handCopy (recompute m)
 
 def step [Zero K] [Add K] [Mul K] [DecidableEq K] (m : Mirror K) : Op K → Mirror K × Option (List K)
   | .assign v => ({ m with heap := m.heap ++ [v], cur := m.heap.length }, none)
@@ -81,6 +111,7 @@ def step [Zero K] [Add K] [Mul K] [DecidableEq K] (m : Mirror K) : Op K → Mirr
   | .random v => ({ m with heap := m.heap ++ [v], cur := m.heap.length }, none)
   | .setInfl i n => ({ m with infl := i, nmodes := n, cached := none, cachedRef := none }, none)
   | .read => let r := read m; (r.1, some r.2)
+  | .editSurface k i v => (editOut m k i v, none)
 
 /-- run a history; collect what every `read` returned, in order -/
 def run [Zero K] [Add K] [Mul K] [DecidableEq K] (m : Mirror K) : List (Op K) → Mirror K × List (List K)
@@ -100,8 +131,10 @@ structure Spec (K : Type) where
   nmodes : Nat
   heap : List (List K)
   cur : Nat
-deriving Repr
+deriving Repr, DecidableEq
 
+/-- The specification ignores the surface arrays altogether: what a caller does to an array it
+received earlier has no bearing on what the mirror's surface is. -/
 def spec (m : Mirror K) : Spec K := ⟨m.infl, m.nmodes, m.heap, m.cur⟩
 
 def Spec.acts (s : Spec K) : List K := s.heap.getD s.cur []
@@ -114,12 +147,45 @@ def Spec.step [Zero K] [Add K] [Mul K] (s : Spec K) : Op K → Spec K × Option 
   | .random v => ({ s with heap := s.heap ++ [v], cur := s.heap.length }, none)
   | .setInfl i n => ({ s with infl := i, nmodes := n }, none)
   | .read => (s, some (matvec s.infl s.acts))
+  | .editSurface _ _ _ => (s, none)
 
 def Spec.run [Zero K] [Add K] [Mul K] (s : Spec K) : List (Op K) → List (List K)
   | [] => []
   | op :: rest =>
     let r := s.step op
     (match r.2 with | some x => [x] | none => []) ++ Spec.run r.1 rest
+
+/-- the state of the specification after a history (the driver steps it alongside the cached
+mirror, one `Spec.step` per operation) -/
+def Spec.after [Zero K] [Add K] [Mul K] (s : Spec K) : List (Op K) → Spec K
+  | [] => s
+  | op :: rest => Spec.after (s.step op).1 rest
+
+/-! ### Read-outs derived from the surface: `opd`
+
+`opd` is `2 * self.surface`: one evaluation of the `surface` property (cache validated or
+recomputed exactly as for a read; the array it returns is kept by nobody else) and a new array
+with every value doubled (`2 * x` is `x + x`, exactly, in binary floating point as well).
+`phase_for`, `forward` and `backward` multiply the same surface by `4π/λ` resp. exponentiate it;
+they are compared numerically by the harness, not modelled. -/
+
+/-- `2 * s`, element by element -/
+def double [Add K] (s : List K) : List K := s.map fun x => x + x
+
+/-- a read-out that evaluates the `surface` property once and post-processes the array with `g`
+(`opd`: `g = double`; `phase_for(λ)`: `g s = 2 s · 2π/λ`; `forward`/`backward`:
+`g s = E · exp(±2ik s)`) -/
+def readOut {β : Type} [Zero K] [Add K] [Mul K] [DecidableEq K] (g : List K → β) (m : Mirror K) :
+    Mirror K × β :=
+  let r := read m
+  (r.1, g r.2)
+
+/-- the `opd` property of the cached mirror -/
+def readOpd [Zero K] [Add K] [Mul K] [DecidableEq K] (m : Mirror K) : Mirror K × List K :=
+  readOut double m
+
+/-- what the optical path difference has to be: `2 · IF · actuators`, no cache involved -/
+def Spec.opd [Zero K] [Add K] [Mul K] (s : Spec K) : List K := double (matvec s.infl s.acts)
 
 /-! ### Broken caches (for counterexamples) -/
 
@@ -141,15 +207,25 @@ def runWith [Zero K] [Add K] [Mul K] [DecidableEq K] (rd : Mirror K → Mirror K
 only fail when the mirror holds a different array with different values -/
 def readByRef [Zero K] [Add K] [Mul K] [DecidableEq K] (m : Mirror K) : Mirror K × List K :=
   match m.cachedRef with
-  | some h =>
-    if m.heap.getD h [] = acts m then (m, m.surface)
-    else let s := matvec m.infl (acts m); ({ m with surface := s, cachedRef := some m.cur }, s)
-  | none => let s := matvec m.infl (acts m); ({ m with surface := s, cachedRef := some m.cur }, s)
+  | some h => if m.heap.getD h [] = acts m then handCopy m else handCopy (recompute m)
+  | none => handCopy (recompute m)
 
 /-- compared by object identity -/
 def readByIdentity [Zero K] [Add K] [Mul K] [DecidableEq K] (m : Mirror K) : Mirror K × List K :=
-  if m.cachedRef = some m.cur then (m, m.surface)
-  else let s := matvec m.infl (acts m); ({ m with surface := s, cachedRef := some m.cur }, s)
+  if m.cachedRef = some m.cur then handCopy m else handCopy (recompute m)
+
+/-! ### Old: the `surface` property before pending_fixes/D22f (documentation, not evidence) -/
+namespace Old
+
+/-- hand the caller the cached surface array itself -/
+def handAlias (m : Mirror K) : Mirror K × List K :=
+  ({ m with outs := m.outs ++ [m.surf] }, surface m)
+
+/-- `surface` as pinned: `return self._surface` on both paths -/
+def readAlias [Zero K] [Add K] [Mul K] [DecidableEq K] (m : Mirror K) : Mirror K × List K :=
+  if m.cached = some (acts m) then handAlias m else handAlias (recompute m)
+
+end Old
 
 end
 end HcipyVerif.Mirror
